@@ -3,7 +3,7 @@ import random, warnings
 from .. import core, gen, ref
 from . import cu
 
-MODULES = ['DsdVerif.Props.C20', 'DsdVerif.Props.PyLegacy']
+MODULES = ['DsdVerif.Props.C20', 'DsdVerif.Props.PyLegacy2']
 GEN_FILES = ['LegacyIupac', 'IupacTables', 'LegacyWrappers', 'PyLegacy', 'PyFuncs']
 THEOREM_NAMES = ['legacy_iupac_agree_dna', 'legacy_iupac_agree_rna', 'legacy_wobble_total']
 THEOREMS = ['Dsd.C20.' + t for t in THEOREM_NAMES] + ['Dsd.C20L.' + t for t in ('legacy_canon_eq', 'legacy_rotations_spec', 'legacy_dup_iff')] + \
@@ -18,7 +18,11 @@ THEOREMS = ['Dsd.C20.' + t for t in THEOREM_NAMES] + ['Dsd.C20L.' + t for t in (
         'py_rotate_once_eq', 'py_size_eq', 'py_strand_length_eq', 'py_sequence_eq', 'py_structure_eq', 'py_lol_sequence_eq', 'py_get_domain_eq',
         'py_pair_table_eq', 'py_get_paired_loc_eq', 'py_loop_index_eq', 'py_get_loop_index_eq', 'py_is_connected_eq', 'py_ptOk_run',
         'py_loop_index_needs_ptOk', 'py_legacy_rotate_once_obj', 'py_legacy_rotate_once_eq_current', 'py_legacy_rotate_once_raises',
-        'py_strand_length_after_rotate_once')]
+        'py_strand_length_after_rotate_once',
+        # Props/PyLegacy2: every translated legacy method has its equality theorem
+        'py_exterior_domains_eq', 'py_enclosed_domains_eq', 'py_kernel_string_eq', 'py_legacy_kernel_string_eq_current',
+        'py_rotate_pairtable_loc_eq', 'py_legacy_rotate_pairtable_loc_sign', 'py_views_after_rotate_once', 'py_inv_new', 'py_inv_step',
+        'py_inv_run', 'py_exterior_needs_liOk', 'py_enclosed_needs_enOk')]
 ASSUMPTIONS = [
     'the legacy SequenceConstraint tables are transcribed from the dictionaries inside its methods (Gen/LegacyIupac.lean, evaluated with '
     'T -> T and T -> U) and compared with the current tables by kernel-decided theorems',
